@@ -746,6 +746,10 @@ pub struct WasmCase {
   /// 0 = "\n", 1 = "\r\n", 2 = "\n" plus a trailing newline
   pub sep: u8,
   pub epoch: String,
+  /// an authentic ADSS sharing made by another party with a message and coins of its own choosing
+  /// (message, coins, number of shares put in front of the other lines)
+  #[serde(default)]
+  pub foreign: Option<(Hx, Hx, u8)>,
 }
 
 fn text() -> BoxedStrategy<String> {
@@ -772,14 +776,32 @@ fn wasm_strat(_t: Tier) -> BoxedStrategy<WasmCase> {
     ),
     0u8..3,
     text(),
+    proptest::option::weighted(
+      0.35,
+      (
+        prop_oneof![4 => small_bytes(40), 1 => Just(Hx(vec![])), 1 => Just(Hx(vec![7; 31])), 1 => Just(Hx(vec![7; 32])), 1 => Just(Hx(vec![7; 33])), 1 => bytes(300)],
+        prop_oneof![3 => small_bytes(40), 1 => Just(Hx(vec![])), 1 => Just(Hx(vec![9; 32]))],
+        0u8..7,
+      ),
+    ),
   )
-    .prop_map(|(t, lines, sep, epoch)| WasmCase { t, lines, sep, epoch })
+    .prop_map(|(t, lines, sep, epoch, foreign)| WasmCase { t, lines, sep, epoch, foreign })
     .boxed()
 }
 
 fn wasm_oracle(c: &WasmCase, st: &mut Stats) -> Result<(), String> {
   let mut lines: Vec<String> = Vec::new();
   let mut malformed = false;
+  if let Some((msg, coins, count)) = &c.foreign {
+    for _ in 0..*count {
+      let sh = adss::Commune::new(c.t, msg.0.clone(), coins.0.clone(), None).share().map_err(|e| format!("Commune::share: {e}"))?;
+      lines.push(BASE64_STANDARD.encode(sh.to_bytes()));
+    }
+    st.class(&format!("authentic-sharing-of-a-{}-message:{}", match msg.len() { 0 => "0-byte", 1..=31 => "short", 32 => "32-byte", _ => "long" }, if *count as u32 >= c.t { "reaches-threshold" } else { "below-threshold" }));
+    if msg.len() != 32 {
+      malformed = true;
+    }
+  }
   for l in &c.lines {
     lines.push(match l {
       Line::Honest => {
@@ -805,7 +827,7 @@ fn wasm_oracle(c: &WasmCase, st: &mut Stats) -> Result<(), String> {
   if c.sep == 2 {
     s.push('\n');
   }
-  if c.lines.is_empty() || c.sep != 0 {
+  if lines.is_empty() || c.sep != 0 {
     malformed = true;
   }
   let r = guard("star_wasm::group_shares", || format!("{:?} epoch {:?}", s, c.epoch), || star_wasm::group_shares(&s, &c.epoch))?;
@@ -825,7 +847,7 @@ pub fn property() -> Property {
   Property {
     id: "C09",
     level: "fault_enumeration",
-    rule: "every consumer of foreign data runs under catch_unwind: the four byte decoders and helpers on the wire-string families of C08 (every prefix, every length field x boundary values, every offset x 12 fault kinds, splices, out-of-range elements, raw strings); adss::recover / share_recover / Sharks::recover on decodable but degenerate shares (no y, mixed y-lengths, duplicated x, thresholds 0 / 1 / 2^31 / 2^32-1, empty collections, honest group mixed in); public-key and proof bytes (truncations, count field boundary values, undecodable points in every slot, arbitrary 64-byte proofs) and JSON texts (every prefix, broken base64, out-of-range numbers) for the PPOPRF decoders, with every successfully decoded value passed on to Client::verify / Server::eval; Server::eval on any 32 bytes x any tag; Client::verify on (public key, input, output, proof present/absent/arbitrary, tag) with undecodable components; star_wasm::group_shares on arbitrary text. Oracle: no unwind, failure reported through None/Err/false. Non-trivial: an input its decoder does not accept as well-formed, or a degenerate value; distinct by (entry point, input).",
+    rule: "every consumer of foreign data runs under catch_unwind: the four byte decoders and helpers on the wire-string families of C08 (every prefix, every length field x boundary values, every offset x 12 fault kinds, splices, out-of-range elements, raw strings); adss::recover / share_recover / Sharks::recover on decodable but degenerate shares (no y, mixed y-lengths, duplicated x, thresholds 0 / 1 / 2^31 / 2^32-1, empty collections, honest group mixed in); public-key and proof bytes (truncations, count field boundary values, undecodable points in every slot, arbitrary 64-byte proofs) and JSON texts (every prefix, broken base64, out-of-range numbers) for the PPOPRF decoders, with every successfully decoded value passed on to Client::verify / Server::eval; Server::eval on any 32 bytes x any tag; Client::verify on (public key, input, output, proof present/absent/arbitrary, tag) with undecodable components; star_wasm::group_shares on arbitrary text and on authentic ADSS sharings of messages no STAR client would share (0..300 bytes). Oracle: no unwind, failure reported through None/Err/false. Non-trivial: an input its decoder does not accept as well-formed, or a degenerate value; distinct by (entry point, input).",
     assumptions: vec![
       "Point::from(&[u8]) and Client::unblind document a length / validity expectation and are not in the statement's list; they are not asserted on",
       "aborts (as opposed to unwinds) are detected by run.sh from the exit status",
